@@ -154,7 +154,7 @@ var (
 )
 
 func readRequest(r *http.Request, ctx *martian.Context) tr.Req {
-	return tr.Req{Method: r.Method, Scheme: r.URL.Scheme, Host: r.URL.Host, Path: r.URL.Path, Query: r.URL.RawQuery,
+	return tr.Req{Method: r.Method, Scheme: r.URL.Scheme, Host: r.URL.Host, Path: r.URL.Path, Wire: r.URL.RawPath, Query: r.URL.RawQuery,
 		HostH: r.Host, Header: map[string][]string(cloneH(r.Header)), CL: r.ContentLength, Skip: ctx.SkippingRoundTrip()}
 }
 
@@ -670,6 +670,11 @@ func (g *gen) node(depth int) *tr.Node {
 
 func genPair(t *rapid.T) Pair {
 	rq, rs := tr.GenPair(t)
+	if uni(t, "wirepath", 4) == 0 {
+		// the request line spells the path differently from Go's canonical escaping
+		w := tr.WirePaths[uni(t, "wirespelling", len(tr.WirePaths))]
+		rq.Wire, rq.Path = w[0], w[1]
+	}
 	return Pair{Req: rq, Res: rs}
 }
 
